@@ -22,7 +22,7 @@ RULE = ('random + directed logical TDMS files from vlib.model (1-6 segments, 1-5
 ASSUMPTIONS = ['the model/encoder in vlib/model.py is a correct reading of the NI TDMS layout (cross-checked by '
                'vlib.refparse on LabVIEW-written files and by agreement with the reader on >10^5 files)',
                'property equality is by value (NaN == NaN); channel values are compared as little-endian bytes']
-REQUIRED = ['dtype_checked', 'contract:receiver.append_data', 'contract:segment._calculate_chunks', 'contract:file._read_data',
+REQUIRED = ['property_dicts_written', 'dtype_checked', 'contract:receiver.append_data', 'contract:segment._calculate_chunks', 'contract:file._read_data',
             'files_by_path', 'files_with_memmap', 'props_compared']
 
 N = {'quick': 16000, 'thorough': 2000000}
@@ -148,6 +148,20 @@ def check_against_model(ctx, segs, tf, tag):
             if not C.img_equal(got, want):
                 lay = sorted({('I' if s.interleaved else 'C') for s in segs if any(pp == p and hd for pp, hd, _ in s.active) and s.chunks})
                 bad.append(('data:%s:%s' % (t, '+'.join(lay)), p, C.short(got), C.short(want)))
+    # the property dicts handed out belong to their objects: writing into one must not show up in another
+    objs_ = [tf] + list(tf.groups()) + [c for g in tf.groups() for c in g.channels()]
+    if len(objs_) >= 2:
+        before_ = [dict(o_.properties) for o_ in objs_]
+        try:
+            objs_[-1].properties['<written by the caller>'] = 1
+            ctx.count('property_dicts_written')
+            for o_, b_ in list(zip(objs_, before_))[:-1]:
+                if dict(o_.properties) != b_:
+                    bad.append(('property-dict-shared-between-objects', getattr(o_, 'path', '/'), sorted(o_.properties)[:4]))
+                    break
+            del objs_[-1].properties['<written by the caller>']
+        except Exception as ex:
+            bad.append(('property-dict-write-raises', type(ex).__name__))
     for kind in bad:
         ctx.violation('%s/%s' % (tag, kind[0]), {'diff': kind, 'segs': [s.describe() for s in segs][:4]})
 
